@@ -129,6 +129,18 @@ REFACTORS = [
   dict(id="ref:RF6-3", patch="refactors/RF6/patch3.diff", silent=["C07", "C09", "C11", "C12", "C33", "C17"]),
   dict(id="ref:RF6-4", patch="refactors/RF6/patch4.diff", silent=["C07", "C09", "C11", "C12", "C33", "C17"]),
   dict(id="ref:RF6-5", patch="refactors/RF6/patch5.diff", silent=["C07", "C09", "C11", "C12", "C33", "C17"]),
+  # corrected twins of seeded changes, written by independent sub-agents (twins/<id>/twin_notes.md): the seed's refactor with
+  # its wrong detail put right must be silent under the very checks that report the seed
+  dict(id="ref:twin-C07_2", patch="twins/C07_2/twin.diff", silent=["C07"]),
+  dict(id="ref:twin-C08_2", patch="twins/C08_2/twin.diff", silent=["C08", "C09", "C10"]),
+  dict(id="ref:twin-C13_4", patch="twins/C13_4/twin.diff", silent=["C13"]),
+  dict(id="ref:twin-C14_1", patch="twins/C14_1/twin.diff", silent=["C14"]),
+  dict(id="ref:twin-C15_2", patch="twins/C15_2/twin.diff", silent=["C36"]),
+  dict(id="ref:twin-C12_3", patch="twins/C12_3/twin.diff", silent=["C12", "C32"]),
+  dict(id="ref:twin-C33_4", patch="twins/C33_4/twin.diff", silent=["C33"]),
+  dict(id="ref:twin-C14_2", patch="twins/C14_2/twin.diff", silent=["C14"]),
+  dict(id="ref:twin-C11_2", patch="twins/C11_2/twin.diff", silent=["C11"]),
+  dict(id="ref:twin-C11_3", patch="twins/C11_3/twin.diff", silent=["C11"]),
   dict(id="ref:sig-guard-forms", subs=[sub("support.py", "  if sig >= (1 << State.NSTATE):", "  if not (sig < 2 ** State.NSTATE):", nth=0)], silent=["C15"]),
 ]
 
